@@ -170,6 +170,12 @@ class Grid(object):
                     pvalue = int(line[1].strip())
                 elif pname.startswith("parentgrid_n"):
                     pvalue = int(line[1].strip())
+                elif pname.startswith("nodata"):
+                    # keep integer no data values exact
+                    try:
+                        pvalue = int(line[1].strip())
+                    except ValueError:
+                        pvalue = float(line[1].strip())
                 else:
                     pvalue = float(line[1].strip())
 
@@ -575,6 +581,9 @@ class Grid(object):
             else:
                 byteorder = "I"
             fh.write("{0:<14} {1}\n".format("BYTEORDER", byteorder))
+
+            # No data value
+            fh.write("{0:<14} {1}\n".format("NODATA", self.nodata))
 
             # Name
             fh.write("{0:<14} {1}\n".format("NAME", self.name))
